@@ -457,7 +457,7 @@ def run_native_property(pid, tier, seed):
     elif pid == 'C17':
         nsh, cases = NPROC, (20000 if quick else 600000)
     else:
-        nsh, cases = NPROC, (300000 if quick else 8000000)
+        nsh, cases = NPROC, (300000 if quick else 3000000)
     procs = []
     for k in range(nsh):
         out = f'{wdir}/shard_{k}.json'; fo = f'{wdir}/shard_{k}.fail'
